@@ -23,7 +23,10 @@ MANIFEST = {
             'comparison band) with exact Fraction arithmetic; floats adjacent to powers of two, 2^k and +-2^1023 (float and int) are '
             'ordinary constructor cases compared with flt_input; outputs of secure floats (positive, negative, zero, tiny, huge, '
             'operation results, lists) to proper receiver subsets (int, [0], [2], [1,2], [2,0]) are checked for m=3 (PRSS on/off) and '
-            'm=2: receivers get the exact masked value and agree, non-receivers get None.',
+            'm=2: receivers get the exact masked value and agree, non-receivers get None. Multi-party inputs where every party '
+            'contributes its own private value from mixes {0, +-1, +-2, +-0.5, +-2^k, 3.5, -0.1, random}, and single input() calls '
+            'for lists with 0 or +-2^k first, followed by *, /, +, < and output at every party, go through the same model/oracle '
+            'checks; a source-form obligation (ast) requires SecureFloat.__init__ to build the significand with integral=False.',
     'note': 'PARTIAL: no Coq theorem for addition/subtraction/comparisons (flt_add is modelled and tied by the correspondence '
             'run, but its invariant/add_bound/cmp_exact_outside_band are not proved) nor for division (runtime._rec Newton '
             'iteration not modelled; / is covered by the implementation oracle only). Harness: every run uses a fresh simulator/event '
@@ -132,6 +135,19 @@ def make_prog(s, E, jobs, sink=None):
                         recs.append(await rec(op, x, yb, _apply(op, x, b)))
                     else:
                         recs.append(await rec(op, yb, x, _apply(op, b, x)))
+                elif kind in ('mix', 'lst'):
+                    if kind == 'mix':        # every party inputs ITS OWN private value (all parties are senders)
+                        _, vals, ops = job[:3]
+                        xs = mpc.input(secflt(vals[pid]))
+                    else:                    # one input() call for a list, from one sender
+                        _, vals, ops, sender = job[:4]
+                        xs = mpc.input([secflt(v) for v in vals], senders=sender)
+                    for v, xv in zip(vals, xs):
+                        r = {'op': 'io', 'a': v.hex() if isinstance(v, float) else v, 'z': await opn(xv)}
+                        r['out'] = (await mpc.output(xv)).hex()
+                        recs.append(r)
+                    for (op, i, j) in ops:
+                        recs.append(await rec(op, xs[i], xs[j], _apply(op, xs[i], xs[j])))
                 elif kind == 'un':
                     _, a, op = job
                     x = mk(a)
@@ -443,7 +459,7 @@ class Checker:
             if r['out'] is not None and Fr(float.fromhex(r['out'])) != vz:
                 self.viol(None, 'output-not-exact', {'job': repr(job), 'rec': r})
             if op == 'io':
-                a = job[1]
+                a = float.fromhex(r['a']) if isinstance(r['a'], str) else r['a']
                 A = Fr(a)
                 if abs(vz - A) > 2 * u * abs(A):
                     self.viol(None, 'io-bound', {'job': repr(job), 'rec': r})
@@ -664,11 +680,87 @@ def check_subset_outputs(ctx, m, t, no_prss, s, E):
     ctx.log('%s %s: outputs of %d values to receiver subsets %s: %d party-level checks' % (tname, cfg, len(items), specs, nchk))
 
 
+def gen_mix_jobs(g, m, nmix, nlst):
+    """inputs of value mixes {0, +-1, +-2, +-0.5, +-2^k, 3.5, -0.1, random}: each party its own private value ('mix', m > 1),
+    and single input() calls for lists whose first element is 0 or +-2^k ('lst'); then *, /, +, < on the shared values"""
+    rng = g.rng
+    klo, khi = max(g.emin + 3, -6), min(g.emax - 3, 6)
+
+    def special():
+        return rng.choice([0.0, 1.0, -1.0, 2.0, -2.0, 0.5, -0.5, 1, -2, 0,
+                           math.ldexp(1.0, rng.randint(klo, khi)), -math.ldexp(1.0, rng.randint(klo, khi))])
+
+    def other():
+        return rng.choice([3.5, -0.1, 1.5, -2.75, 0.3, g.flt(e=rng.randint(-2, 3)), g.flt(e=rng.randint(-2, 3))])
+
+    def ops_on(vals):
+        pairs = [(i, j) for i in range(len(vals)) for j in range(len(vals)) if i != j]
+        cand = [(op, i, j) for (i, j) in pairs for op in ('mul', 'div', 'add', 'lt')
+                if op in g.ops_for(vals[i], vals[j], None)]
+        rng.shuffle(cand)
+        return sorted(cand[:5], key=lambda o: (o[1], o[2], o[0]))
+
+    jobs = []
+    for _ in range(nmix if m > 1 else 0):
+        vals = [other() if rng.random() < 0.5 else special() for _ in range(m)]
+        vals[rng.randrange(m)] = special()
+        k = rng.randrange(m)
+        vals[k] = other() if all(Fr(v) == 0 or abs(Fr(v)).numerator & (abs(Fr(v)).numerator - 1) == 0 and
+                                 abs(Fr(v)).denominator & (abs(Fr(v)).denominator - 1) == 0 for v in vals) else vals[k]
+        jobs.append(('mix', vals, ops_on(vals)))
+    for _ in range(nlst):
+        n = rng.choice([2, 3, 3, 4])
+        vals = [special()] + [other() if rng.random() < 0.7 else special() for _ in range(n - 1)]
+        jobs.append(('lst', vals, ops_on(vals), rng.randrange(m)))
+    return jobs
+
+
+def source_form_obligation(ctx):
+    """Fail-closed source-form obligation: inside SecureFloat.__init__ every construction of the significand from a value
+    (self.significand_type(<not None>, ...)) passes integral=False; anything else is a broken obligation."""
+    import ast
+    from lib.core import REPO
+    path = REPO + '/mpyc/sectypes.py'
+    found, bad = 0, []
+    try:
+        tree = ast.parse(open(path).read())
+        cls = next(n for n in tree.body if isinstance(n, ast.ClassDef) and n.name == 'SecureFloat')
+        init = next(n for n in cls.body if isinstance(n, ast.FunctionDef) and n.name == '__init__')
+        for node in ast.walk(init):
+            if isinstance(node, ast.Call) and isinstance(node.func, ast.Attribute) and node.func.attr == 'significand_type' \
+                    and isinstance(node.func.value, ast.Name) and node.func.value.id == 'self':
+                if len(node.args) == 1 and isinstance(node.args[0], ast.Constant) and node.args[0].value is None and not node.keywords:
+                    continue        # placeholder significand_type(None)
+                found += 1
+                kw = {k.arg: k.value for k in node.keywords}
+                if not (len(node.args) == 1 and set(kw) == {'integral'} and isinstance(kw['integral'], ast.Constant)
+                        and kw['integral'].value is False):
+                    bad.append('line %d: %s' % (node.lineno, ast.unparse(node)))
+        # no other way to build the significand in __init__ (e.g. through an alias of the type)
+        for node in ast.walk(init):
+            if isinstance(node, ast.Attribute) and node.attr == 'significand_type' and not (
+                    isinstance(node.value, ast.Name) and node.value.id == 'self'):
+                bad.append('line %d: significand_type reached through %s' % (node.lineno, ast.unparse(node)))
+        if found != 1:
+            bad.append('expected exactly 1 significand construction from a value in SecureFloat.__init__, found %d' % found)
+    except Exception as exc:  # noqa
+        bad.append('cannot analyse %s: %r' % (path, exc))
+    ctx.obligations += 1
+    if bad:
+        ctx.broken.append({'kind': 'source-form', 'what': 'SecureFloat.__init__ must construct the significand with integral=False',
+                           'detail': bad})
+        ctx.log('source-form obligation BROKEN: %s' % bad)
+    else:
+        ctx.discharged += 1
+    return not bad
+
+
 FC05 = [(11, 5, 1e-4), (24, 8, 1e-9)]
 
 
 def run(ctx):
     ok = ctx.build(['MPyC.Flt']) and ctx.check_props()
+    source_form_obligation(ctx)
     rng = ctx.rng
     ctx.rule = ('case = (type (s,e), party config, op, operand pairs); operands: floats at exponent extremes, exponent deltas '
                 'around f, near-cancellation pairs, equal values, zero operands, powers of two, comparison-band edges, random '
@@ -698,6 +790,7 @@ def run(ctx):
         if E > 9:       # keep |x| well inside the Python float range (output computes s * 2**e in floats)
             g.emin, g.emax = -300, 300
         jobs = gen_jobs(g, **jp)
+        jobs += gen_mix_jobs(g, m, ctx.n(5, 20), ctx.n(3, 10) if m > 1 or s <= 24 else 1)
         # F-C05 replay inputs in every configuration of the matching type
         for (fs, fE, x) in FC05:
             if (fs, fE) == (s, E):
